@@ -298,6 +298,85 @@ def unevaluated_positions(rows):
     return out
 
 
+class _RefError(Exception):
+    pass
+
+
+def reference_rows(rows, cx):
+    """What the property says a (well nested) sugared sheet means: the rows handed on, in order,
+    when every loop is replaced by its body once per element with the loop and index variable
+    substituted (LEXICAL scope: an environment per iteration, the outer one untouched) and
+    excluded rows/blocks are dropped unevaluated.  -> ('ok', [(id, text)]) | ('err', why)"""
+    out = []
+
+    def render(segs, env):
+        parts = []
+        for k, sg in segs:
+            if k == "lit":
+                parts.append(sg)
+            elif sg not in env:
+                raise _RefError("undefined")
+            else:
+                parts.append(",".join(env[sg]) if isinstance(env[sg], list) else env[sg])
+        return "".join(parts)
+
+    def included(r, env):
+        inc = r["inc"]
+        if inc in ("true", "false"):
+            return inc == "true"
+        if inc[1] not in env:
+            raise _RefError("undefined")
+        val = env[inc[1]]
+        return (",".join(val) if isinstance(val, list) else val).strip().lower() != "false"
+
+    def matching_end(i):
+        depth, j = 1, i + 1
+        while depth:
+            depth += rows[j]["kind"] in ("for", "block")
+            depth -= rows[j]["kind"] in ("endfor", "endblock")
+            j += 1
+        return j - 1
+
+    def body(lo, hi, env):
+        i = lo
+        while i < hi:
+            r = rows[i]
+            if r["kind"] == "plain":
+                if included(r, env):
+                    out.append((render(r.get("id", []), env), render(r.get("text", []), env)))
+                i += 1
+                continue
+            end = matching_end(i)
+            if included(r, env):
+                render(r.get("id", []), env)
+                if r["kind"] == "block":
+                    body(i + 1, end, env)
+                else:
+                    it = r["iter"]
+                    if it[0] == "lit":
+                        elems = list(it[1])
+                    elif it[1] not in env:
+                        raise _RefError("undefined")
+                    else:
+                        elems = list(env[it[1]]) if isinstance(env[it[1]], list) else [env[it[1]]]
+                    vs = r.get("vars", [])
+                    if not vs or not vs[0]:
+                        raise _RefError("no-loop-variable")
+                    for n, e in enumerate(elems):
+                        env2 = dict(env)
+                        env2[vs[0]] = e
+                        if len(vs) > 1 and vs[1]:
+                            env2[vs[1]] = str(n)
+                        body(i + 1, end, env2)
+            i = end + 1
+
+    try:
+        body(0, len(rows), dict(cx))
+    except _RefError as e:
+        return ("err", str(e))
+    return ("ok", out)
+
+
 def well_nested(rows):
     st = []
     for r in rows:
@@ -309,94 +388,147 @@ def well_nested(rows):
     return not st
 
 
+P = lambda text, inc="true", rid=None: dict(kind="plain", inc=inc, id=[("lit", rid)] if rid else [], text=text)  # noqa: E731
+L_ = lambda s: ("lit", s)  # noqa: E731
+R_ = lambda s: ("ref", s)  # noqa: E731
+FOR = lambda vs, it, rid=None: dict(kind="for", inc="true", id=[("lit", rid)] if rid else [], vars=vs, iter=it)  # noqa: E731
+ENDFOR = dict(kind="endfor", inc="true")
+
+# the inputs of the two recorded defects and their neighbours, always run (as ordinary cases)
+DIRECTED = [
+    # the loop variable is named like a context entry (findings.d: loop-variable-shadows-outer-variable)
+    ({"cx": "CXVAL"}, [FOR(["cx"], ("lit", ["a", "b"]), "1"), P([R_("cx")]), ENDFOR, P([L_("after:"), R_("cx")])]),
+    # the INDEX variable is
+    ({"cx": "CXVAL", "k": "K"}, [FOR(["i", "cx"], ("lit", ["a", "b"]), "1"), P([R_("cx"), R_("i")]), ENDFOR, P([L_("after:"), R_("cx")])]),
+    # an inner loop reuses the outer loop's variable
+    ({}, [FOR(["x"], ("lit", ["a", "b"]), "1"), FOR(["x"], ("lit", ["p", "q"])), P([L_("in:"), R_("x")]), ENDFOR,
+          P([L_("out:"), R_("x")]), ENDFOR, P([L_("tail")])]),
+    # one name for both variables
+    ({"x": "OUT"}, [P([L_("hi")], rid="first"), FOR(["x", "x"], ("lit", ["a", "b"])), P([L_("in:"), R_("x")]), ENDFOR, P([L_("after:"), R_("x")])]),
+    # a loop over nothing (findings.d: empty-loop), literal and from a context list, nested, shadowing
+    ({}, [P([L_("hi")], rid="1"), FOR(["x"], ("lit", []), "2"), P([R_("x")]), ENDFOR, P([L_("bye")], rid="3")]),
+    ({"l0": []}, [P([L_("hi")], rid="1"), FOR(["x", "i"], ("ref", "l0"), "2"), P([R_("x"), R_("i")]), dict(kind="block", inc="true", id=[]),
+                  P([R_("ghost")]), dict(kind="endblock", inc="true"), ENDFOR, P([L_("bye")])]),
+    ({"cx": "CXVAL"}, [P([L_("hi")], rid="1"), FOR(["cx"], ("lit", []), "2"), FOR(["y"], ("lit", ["a", "b"])), P([R_("cx"), R_("y")]), ENDFOR, ENDFOR,
+                       P([L_("bye:"), R_("cx")])]),
+    ({}, [P([L_("hi")], rid="1"), FOR(["x"], ("lit", ["a", "b"])), FOR(["y"], ("lit", [])), P([R_("y")]), ENDFOR, P([L_("in:"), R_("x")]), ENDFOR,
+          P([L_("bye")])]),
+]
+
+
+def sheet_classes(rows, cx):
+    """(a loop variable shadows a context entry or an enclosing loop's variable, a loop runs over nothing)"""
+    shadow, empty, stack = False, False, []
+    for r in rows:
+        if r["kind"] == "for":
+            vs = [x for x in r.get("vars", []) if x]
+            if any(x in cx or x in [b for s in stack for b in s] for x in vs) or len(set(vs)) < len(vs):
+                shadow = True          # (an index variable named like its own loop variable shadows it)
+            it = r.get("iter")
+            if r["inc"] != "false" and ((it[0] == "lit" and not it[1]) or (it[0] == "ref" and cx.get(it[1]) == [])):
+                empty = True
+            stack.append(vs)
+        elif r["kind"] == "block":
+            stack.append([])
+        elif r["kind"] in ("endfor", "endblock") and stack:
+            stack.pop()
+    return shadow, empty
+
+
+def str_ctx(cx):
+    return [[k, [str(x) for x in val] if isinstance(val, list) else str(val)] for k, val in cx.items()]
+
+
+def oracles(ir, before, never, empty, ref=None):
+    """the property's own statements on what the implementation did; -> list of summaries"""
+    out = []
+    if ref is not None and ref[0] == "ok":
+        want = [list(x) for x in ref[1]]
+        if ir[0] != "ok":
+            if ir[1] != "graph":
+                out.append(f"the sheet is rejected ({ir[1]}) although its unrolled, lexically scoped reading delivers the rows {want!r}")
+        else:
+            got = [[e[1], e[2]] for e in ir[1] if e[0] == "row"]
+            if got != want:
+                out.append(f"rows handed on {got!r}; the unrolled, lexically scoped reading of the sheet gives {want!r}")
+    if ir[0] == "ok" and [list(p) for p in ir[2]] != before:
+        out.append(f"after the sheet the templating context is {ir[2]!r}, it was {before!r}: a loop variable is not scoped to its loop")
+    events = ir[1] if ir[0] == "ok" else ir[3]
+    hit = sorted({e[1] for e in events if e[0] == "inst"} & set(never))
+    if hit:
+        out.append(f"rows {hit} lie inside an excluded block or a loop over nothing and are instantiated")
+    elif empty and ir[0] == "err" and ir[1] == "KeyError":
+        out.append("a loop over nothing fails with KeyError (its variable was never added)")
+    return out
+
+
+def judge(ctx, rows, cx, spell, dist, nontrivial):
+    v, m = ctx.v, ctx.model
+    csvtext = sheet_csv(rows, spell)
+    v.coverage["evaluations"] += 1
+    ir = impl_run(csvtext, cx)
+    shadow, empty = sheet_classes(rows, cx)
+    dist["with_shadowing"] += shadow
+    dist["with_empty_loop"] += empty
+    key = "empty-loop" if empty else "loop-variable-shadows-outer-variable" if shadow else "loop-mechanics"
+    never = sorted(unevaluated_positions(rows)) if well_nested(rows) else []
+    dist["with_excluded_block"] += bool(never)
+    dist["scope_oracle_checked"] += ir[0] == "ok"
+    ref = reference_rows(rows, cx) if well_nested(rows) else None
+    dist["reference_reading_ok"] += bool(ref and ref[0] == "ok")
+    rep = dict(fn="blocks", csv=csvtext, ctx=cx, never=never, empty=empty, ref=ref)
+    for summary in oracles(ir, str_ctx(cx), never, empty, ref)[:1]:
+        v.failing_input(key, summary, rep)
+    # ---- correspondence
+    if not m:
+        return
+    mo = model_run(m, rows, cx)
+    if mo is None:
+        ctx.disagree("blocks: model rejected the sheet", rep, "BADINPUT", "")
+        return
+    if mo[0] == "err" and mo[1] == "FUEL":
+        return
+    if ir[0] == "err" and ir[1] == "graph":
+        dist["graph_error_outside_model"] += 1
+        return
+    if mo[0] == "ok":
+        dist["ok"] += 1
+        if ir[0] != "ok":
+            ctx.disagree("blocks: model delivers, implementation fails", rep, repr(mo[1][-6:]), repr(ir[:2]))
+        elif mo[1] != ir[1]:
+            ctx.disagree("blocks: event stream", rep, repr(mo[1]), repr(ir[1]))
+        elif mo[2] != ir[2]:
+            ctx.disagree("blocks: context after the sheet", rep, repr(mo[2]), repr(ir[2]))
+        else:
+            nontrivial.add(csvtext)
+    else:
+        dist["err"] += 1
+        if ir[0] == "ok" or ir[1] != mo[1]:
+            ctx.disagree("blocks: model fails, implementation differs", rep, repr(mo), repr(ir[:2]))
+        else:
+            nontrivial.add(csvtext)
+
+
 def run(ctx, n):
-    """n generated sheets; returns the set of non-trivial cases (for the coverage count)"""
-    v, m, rng = ctx.v, ctx.model, ctx.rng
+    """the directed cases, then n generated sheets; returns the set of non-trivial cases"""
+    rng = ctx.rng
     dist = {"ok": 0, "err": 0, "graph_error_outside_model": 0, "with_shadowing": 0, "with_empty_loop": 0, "with_excluded_block": 0,
-            "scope_oracle_checked": 0}
+            "scope_oracle_checked": 0, "reference_reading_ok": 0}
     nontrivial = set()
-    if m:
-        pol = model_policies(m)
-        ctx.stats["loop_mechanics_of_the_code"] = pol
+    if ctx.model:
+        ctx.stats["loop_mechanics_of_the_code"] = model_policies(ctx.model)
+    for cx, rows in DIRECTED:
+        judge(ctx, rows, cx, ["" if r["inc"] == "true" else "FALSE" for r in rows], dist, nontrivial)
     for _ in range(n):
         cx = gen_ctx(rng)
         rows = gen_rows(rng, cx)
         spell = [rng.choice(["", "TRUE", "true"]) if r["inc"] == "true" else rng.choice(["FALSE", "false", "False"]) for r in rows]
-        csvtext = sheet_csv(rows, spell)
-        v.coverage["evaluations"] += 1
-        ir = impl_run(csvtext, cx)
-        rep = dict(fn="blocks", csv=csvtext, ctx=cx)
-        # which known classes does this sheet fall in
-        bound, shadow, empty = [], False, False
-        stack = []
-        for r in rows:
-            if r["kind"] == "for":
-                vs = [x for x in r.get("vars", []) if x]
-                if any(x in cx or x in [b for s in stack for b in s] for x in vs):
-                    shadow = True
-                it = r.get("iter")
-                if r["inc"] != "false" and ((it[0] == "lit" and not it[1]) or (it[0] == "ref" and cx.get(it[1]) == [])):
-                    empty = True
-                stack.append(vs)
-            elif r["kind"] == "block":
-                stack.append([])
-            elif r["kind"] in ("endfor", "endblock") and stack:
-                stack.pop()
-        dist["with_shadowing"] += shadow
-        dist["with_empty_loop"] += empty
-        key = "empty-loop" if empty else "loop-variable-shadows-outer-variable" if shadow else "loop-mechanics"
-        # ---- oracle 1: lexical scope (when the sheet is read to its end, the context is what it was)
-        if ir[0] == "ok":
-            dist["scope_oracle_checked"] += 1
-            before = [(k, [str(x) for x in val] if isinstance(val, list) else str(val)) for k, val in cx.items()]
-            if ir[2] != before:
-                v.failing_input(key, f"after the sheet the templating context is {ir[2]!r}, it was {before!r}: a loop variable is not scoped to its loop", rep)
-        # ---- oracle 2: excluded content / the body of a loop over nothing is never instantiated
-        events = ir[1] if ir[0] == "ok" else ir[3]
-        if well_nested(rows):
-            never = unevaluated_positions(rows)
-            dist["with_excluded_block"] += bool(never)
-            hit = sorted({e[1] for e in events if e[0] == "inst"} & never)
-            if hit:
-                v.failing_input(key, f"rows {hit} lie inside an excluded block or a loop over nothing and are instantiated", rep)
-            elif empty and ir[0] == "err" and ir[1] == "KeyError":
-                v.failing_input(key, "a loop over nothing fails with KeyError (its variable was never added)", rep)
-        # ---- correspondence
-        if not m:
-            continue
-        mo = model_run(m, rows, cx)
-        if mo is None:
-            ctx.disagree("blocks: model rejected the sheet", rep, "BADINPUT", "")
-            continue
-        if mo[0] == "err" and mo[1] == "FUEL":
-            continue
-        if ir[0] == "err" and ir[1] == "graph":
-            dist["graph_error_outside_model"] += 1
-            continue
-        if mo[0] == "ok":
-            dist["ok"] += 1
-            if ir[0] != "ok":
-                ctx.disagree("blocks: model delivers, implementation fails", rep, repr(mo[1][-6:]), repr(ir[:2]))
-            elif mo[1] != ir[1]:
-                ctx.disagree("blocks: event stream", rep, repr(mo[1]), repr(ir[1]))
-            elif mo[2] != ir[2]:
-                ctx.disagree("blocks: context after the sheet", rep, repr(mo[2]), repr(ir[2]))
-            else:
-                nontrivial.add(csvtext)
-        else:
-            dist["err"] += 1
-            if ir[0] == "ok" or ir[1] != mo[1]:
-                ctx.disagree("blocks: model fails, implementation differs", rep, repr(mo), repr(ir[:2]))
-            else:
-                nontrivial.add(csvtext)
+        judge(ctx, rows, cx, spell, dist, nontrivial)
     ctx.stats["blocks_correspondence"] = dist
     return nontrivial
 
 
 def replay(r):
-    """True when the oracles hold on this input"""
+    """True when the property's statements hold on this input"""
     ir = impl_run(r["csv"], r["ctx"])
-    if ir[0] != "ok":
-        return ir[1] != "KeyError"
-    before = [(k, [str(x) for x in val] if isinstance(val, list) else str(val)) for k, val in r["ctx"].items()]
-    return ir[2] == before
+    return not oracles(ir, str_ctx(r["ctx"]), r.get("never", []), r.get("empty", False), r.get("ref"))
